@@ -728,9 +728,19 @@ def probe_parse_layout() -> tuple[bool, str]:
     variants = {f"indent {n}": f'===DOC===\nB:\n{" " * n}K::5\n{" " * n}J::[a,2]\nT::"x y"\n===END===\n' for n in (1, 3, 4, 7, 8)}
     variants["blank lines"] = '===DOC===\n\nB:\n\n  K::5\n\n  J::[a,2]\n\nT::"x y"\n\n===END===\n'
     variants["multi-line list"] = '===DOC===\nB:\n  K::5\n  J::[\n    a,\n    2\n  ]\nT::"x y"\n===END===\n'
+    variants["multi-line holographic"] = None
     variants["no end"] = '===DOC===\nB:\n  K::5\n  J::[a,2]\nT::"x y"\n'
     variants["no end, blank"] = '===DOC===\nB:\n  K::5\n  J::[a,2]\nT::"x y"\n\n'
+    holo_one = '===DOC===\nF::["example"∧REQ→§SELF]\n===END===\n'
+    holo_multi = '===DOC===\nF::[\n    "example"∧REQ→§SELF\n  ]\n===END===\n'
+    try:
+        if emit(parse(holo_multi)) != emit(parse(holo_one)):
+            bad.append(f"multi-line holographic list reads as {emit(parse(holo_multi))!r}, the one-line spelling as {emit(parse(holo_one))!r}")
+    except Exception as e:  # noqa: BLE001
+        bad.append(f"multi-line holographic list: {type(e).__name__}: {e}")
     for name, text in variants.items():
+        if text is None:
+            continue
         try:
             got = emit(parse(text))
         except Exception as e:  # noqa: BLE001
@@ -798,6 +808,9 @@ def parse_scalar_obs(P: str) -> list[Ob]:
     pd = "octave_mcp.core.parser:Parser.parse_document"
     obs.append(Ob(f"{P}.P.read.meta", "P", "Parser.parse_meta_block on META: / KEY::<scalar> returns {key text: the scalar token's value}", [pm, pv], make(lambda ctx: [f"meta_field({k!r})" for k in PS.KINDS])))
     obs.append(Ob(f"{P}.P.read.block", "P", "Parser.parse_section on NAME: / indented KEY::<scalar> returns Block(NAME, [Assignment(key text, the scalar token's value)])", [ps, pv], make(lambda ctx: [f"block_child({k!r})" for k in PS.KINDS])))
+    obs.append(Ob(f"{P}.P.read.comments", "P", "Parser.parse_document on // lead / KEY::<scalar> // trail: the comment tokens' texts become the assignment's leading_comments / trailing_comment, the value is the token's value", [pd, ps, pv], make(lambda ctx: [f"with_comments({k!r})" for k in PS.KINDS])))
+    obs.append(Ob(f"{P}.P.read.expression", "P", "Parser.parse_section on KEY::A op B [op C] for each of the seven expression operators: the value is the operand and operator token texts concatenated in order", [ps, pv, "octave_mcp.core.parser:Parser.parse_flow_expression"], make(lambda ctx: [f"expression(({o!r},))" for o in PS.OPS] + ["expression(('FLOW', 'SYNTHESIS'))", "expression(('CONSTRAINT', 'ALTERNATIVE'))", "expression(('AT', 'FLOW'))"])))
+    obs.append(Ob(f"{P}.P.read.section", "P", "Parser.parse_section on §7::NAME / indented KEY::<scalar> returns Section('7', NAME, [Assignment]); NAME[→§T]: / KEY::<scalar> returns Block(NAME, target T, [Assignment])", [ps, "octave_mcp.core.parser:Parser.parse_section_marker", pv], make(lambda ctx: [f"section_marker({k!r})" for k in PS.KINDS] + [f"block_target({k!r})" for k in PS.KINDS])))
     obs.append(Ob(f"{P}.P.read.document", "P", "Parser.parse_document on ===DOC=== / KEY::<scalar> / ===END=== returns Document(DOC, [Assignment(key text, the scalar token's value)])", [pd, ps, pv], make(lambda ctx: [f"document({k!r})" for k in PS.KINDS])))
     return obs
 
@@ -818,6 +831,7 @@ def parse_layout_obs(P: str) -> list[Ob]:
         Ob(f"{P}.P.read.blank-lines", "P", "blank lines after a block header, after a child, around a top-level assignment read as the same tree", [ps, pd, pv], make(lambda ctx: [f"block_child_lenient({k!r}, True)" for k in PS.KINDS] + [f"document_lenient({k!r}, 'blank')" for k in PS.KINDS])),
         Ob(f"{P}.P.read.multi-line-list", "P", "a list written one item per line (any indentation widths) reads as the items of the one-line list", [pl, pv], make(lambda ctx: [f"list_multiline({a!r}, {b!r})" for a, b in PS.pairs(ctx.thorough)])),
         Ob(f"{P}.P.read.no-end", "P", "an omitted ===END=== (with and without blank lines) reads as the same Document", [pd, ps, pv], make(lambda ctx: [f"document_lenient({k!r}, {v!r})" for k in PS.KINDS for v in ("no-end", "both")])),
+        Ob(f"{P}.P.read.holographic-layout", "P", "a holographic pattern list written on one line, one item per line, split over lines or with a comment line reconstructs to the same pattern text (layout tokens never reach it)", ["octave_mcp.core.parser:Parser._reconstruct_pattern_from_tokens"], make(lambda ctx: [f"holographic_reconstruct({l!r})" for l in PS.HOLO_LAYOUTS])),
         Ob(f"{P}.P.read.optional-quotes", "P", "a plain word reads as the same str whether it arrives as a STRING or as an IDENTIFIER token (parse_value returns the token's value in both cases, every follow context)", [pv], make(lambda ctx: [f"standalone({k!r}, {f!r})" for k in ("STRING", "IDENTIFIER") for f in PS.FOLLOW])),
     ]
 
@@ -890,3 +904,86 @@ def emit_layout_obs(P: str) -> list[Ob]:
 
     fns = ["octave_mcp.core.emitter:emit", "octave_mcp.core.emitter:emit_assignment", "octave_mcp.core.emitter:emit_block", "octave_mcp.core.emitter:emit_meta"]
     return [Ob(f"{P}.P.emit.layout", "P", "emit on document spines (top-level assignment, blocks 1-3 deep, siblings, META with a nested level): the text is exactly the strict layout - explicit ===NAME=== / ===END===, KEY::value with no space, two spaces per level, one final newline - around the value texts emit_value returns", fns, make(lambda ctx: EL.all_contracts(ctx.thorough)))]
+
+
+# ---- the token stream is append-only (one documented in-place merge) -------------------------------------------------------
+def probe_literal_lookalikes() -> tuple[bool, str]:
+    """strings that look like literals in another case / another language come back as the same strings"""
+    from octave_mcp.core.ast_nodes import Assignment, Block, Document, InlineMap, ListValue
+    from octave_mcp.core.emitter import emit
+    from octave_mcp.core.parser import parse
+
+    bad = []
+    for v in ("True", "TRUE", "False", "FALSE", "Null", "NULL", "None", "none", "Yes", "NO", "tRuE", "nil", "NaN", "Infinity", "60%", "100%_done"):
+        doc = Document(name="T", meta={"M": v}, sections=[Assignment(key="K", value=v), Assignment(key="L", value=ListValue(items=[v, "x"])), Assignment(key="I", value=ListValue(items=[InlineMap(pairs={"k": v})])), Block(key="B", children=[Assignment(key="C", value=v)])])
+        try:
+            d2 = parse(emit(doc))
+        except Exception as e:  # noqa: BLE001
+            bad.append(f"{v!r}: canonical text is refused: {type(e).__name__}: {e}")
+            continue
+        got = {"assignment": d2.sections[0].value, "list item": d2.sections[1].value.items[0], "inline-map value": d2.sections[2].value.items[0].pairs.get("k"), "block child": d2.sections[3].children[0].value, "META field": d2.meta.get("M")}
+        for where, g in got.items():
+            if g != v or type(g) is not str:
+                bad.append(f"{v!r} as {where} reads back as {g!r} ({type(g).__name__})")
+    return bool(bad), "; ".join(bad[:3]) or "16 literal look-alikes x 5 positions come back as the same strings"
+
+
+def ob_token_stream_frame(ctx: Ctx) -> Outcome:
+    """tokenize only ever APPENDS to its token list - the step model's 'one fired entry = one token' - except for the one
+    documented in-place merge of a trailing % into the previous NUMBER / IDENTIFIER token (inside the fall-back's
+    `content[pos] == '%'` branch, producing an IDENTIFIER). No other store, delete or mutating call touches `tokens`."""
+    from verif.common import shape_verdict
+
+    try:
+        fn = extract.find_def(LEXER, "tokenize")
+    except ExtractionError as e:
+        return Outcome.undecided("ast-shape", str(e))
+    parents: dict[int, ast.AST] = {}
+    for n in ast.walk(fn):
+        for c in ast.iter_child_nodes(n):
+            parents[id(c)] = n
+
+    def under_percent_branch(n: ast.AST) -> bool:
+        while id(n) in parents:
+            n = parents[id(n)]
+            if isinstance(n, ast.If) and ast.unparse(n.test).startswith("content[pos] == '%'"):
+                return True
+        return False
+
+    problems, appends, merges = [], 0, 0
+    for n in ast.walk(fn):
+        if not (isinstance(n, ast.Name) and n.id == "tokens"):
+            continue
+        par = parents.get(id(n))
+        if isinstance(n.ctx, ast.Store):
+            if not (isinstance(par, (ast.Assign, ast.AnnAssign)) and isinstance(par.value, ast.List) and not par.value.elts):
+                problems.append(f"L{n.lineno}: `tokens` is rebound")
+            continue
+        if isinstance(par, ast.Attribute):
+            if par.attr == "append":
+                appends += 1
+            else:
+                problems.append(f"L{n.lineno}: tokens.{par.attr}(...) (only append is part of the contract)")
+        elif isinstance(par, ast.Subscript) and isinstance(par.ctx, (ast.Store, ast.Del)):
+            st = parents.get(id(par))
+            ok = isinstance(st, ast.Assign) and under_percent_branch(par) and isinstance(st.value, ast.Call) and ast.unparse(st.value.func) == "Token" and st.value.args and ast.unparse(st.value.args[0]) == "TokenType.IDENTIFIER" and ast.unparse(par.slice) == "-1"
+            if ok:
+                merges += 1
+            else:
+                problems.append(f"L{n.lineno}: `{ast.unparse(st)[:70] if st is not None else ast.unparse(par)}` replaces or deletes an already emitted token")
+    if merges > 1:
+        problems.append(f"{merges} in-place merges (one is documented)")
+    # the fall-back branch (no table entry fired) builds only IDENTIFIER tokens and the ⊕ token for '+': the step model's
+    # identifier scanner has no other outcome
+    for n in ast.walk(fn):
+        if isinstance(n, ast.If) and ast.unparse(n.test) == "not matched":
+            for c in ast.walk(n):
+                if isinstance(c, ast.Call) and ast.unparse(c.func) == "Token" and c.args:
+                    kind = ast.unparse(c.args[0])
+                    if kind not in ("TokenType.IDENTIFIER", "TokenType.SYNTHESIS"):
+                        problems.append(f"L{c.lineno}: the fall-back branch builds a {kind} token (only IDENTIFIER and the ⊕ of '+' are part of the contract)")
+    if appends == 0:
+        return Outcome.undecided("ast-shape", "no tokens.append(...) in tokenize")
+    if problems:
+        return shape_verdict("ast-frame", problems, probe_literal_lookalikes, appends + merges, {"runner": "props.lexical:probe_literal_lookalikes", "args": {}})
+    return Outcome.ok("ast-frame", count=appends + merges, appends=appends, in_place_merges=merges)
